@@ -72,7 +72,10 @@ var c20Values = []string{
 	"ttemplate.Template", "htemplate.Template",
 }
 
-func c20TargetSrc() string {
+func c20TargetSrc() string { return c20TargetSrcN(c20NumRules) }
+
+// c20TargetSrcN: the target with numRules probe functions p<k> (the history suite needs one per rule of a whole history).
+func c20TargetSrcN(numRules int) string {
 	var sb strings.Builder
 	sb.WriteString(`package target
 
@@ -119,11 +122,11 @@ var _ fmt.Stringer
 	for i, t := range c20Values {
 		fmt.Fprintf(&sb, "var v%d %s\n", i, t)
 	}
-	for k := 0; k < c20NumRules; k++ {
+	for k := 0; k < numRules; k++ {
 		fmt.Fprintf(&sb, "func p%d(interface{}) {}\n", k)
 	}
 	sb.WriteString("\nfunc f() {\n")
-	for k := 0; k < c20NumRules; k++ {
+	for k := 0; k < numRules; k++ {
 		for i := range c20Values {
 			fmt.Fprintf(&sb, "\tp%d(v%d)\n", k, i)
 		}
@@ -145,6 +148,7 @@ func (im *c20Importer) Import(path string) (*types.Package, error) {
 }
 
 type c20World struct {
+	numRules   int
 	target     *hx.Target
 	valueTypes []types.Type
 	sexp       string // (pkgs …) (targets …) (underlying …)
@@ -165,7 +169,9 @@ func c20TType(t types.Type) string {
 	return "o"
 }
 
-func c20BuildWorld() (*c20World, error) {
+func c20BuildWorld() (*c20World, error) { return c20BuildWorldN(c20NumRules) }
+
+func c20BuildWorldN(numRules int) (*c20World, error) {
 	fset := token.NewFileSet()
 	im := &c20Importer{pkgs: map[string]*types.Package{}, std: importer.ForCompiler(fset, "source", nil)}
 	check := func(path, src string, info *types.Info) (*types.Package, *ast.File, error) {
@@ -199,12 +205,12 @@ func c20BuildWorld() (*c20World, error) {
 		Scopes:     map[ast.Node]*types.Scope{},
 		Instances:  map[*ast.Ident]types.Instance{},
 	}
-	src := c20TargetSrc()
+	src := c20TargetSrcN(numRules)
 	pkg, f, err := check("target", src, info)
 	if err != nil {
 		return nil, err
 	}
-	w := &c20World{target: &hx.Target{Fset: fset, File: f, Info: info, Pkg: pkg, Src: []byte(src), Name: "target.go"}}
+	w := &c20World{numRules: numRules, target: &hx.Target{Fset: fset, File: f, Info: info, Pkg: pkg, Src: []byte(src), Name: "target.go"}}
 	for i := range c20Values {
 		w.valueTypes = append(w.valueTypes, pkg.Scope().Lookup(fmt.Sprintf("v%d", i)).Type())
 	}
@@ -281,7 +287,10 @@ type c20Group struct {
 
 type c20File struct {
 	Groups []c20Group
-	src    string
+	// rendering details the model does not see: the first rule is rule k0 (pattern p<k0>, message R<k0>),
+	// group <Name> is declared as g<gBase+Name> (so that several files can share one engine)
+	k0, gBase int
+	src       string
 	out    string // observed canonical outcome
 	errTxt string
 }
@@ -360,9 +369,9 @@ func c20Unresolvable(g c20Group, r c20Rule) bool {
 func (f *c20File) render() {
 	var sb strings.Builder
 	sb.WriteString("package gorules\n\nimport \"github.com/quasilyte/go-ruleguard/dsl\"\n\n")
-	k := 0
+	k := f.k0
 	for _, g := range f.Groups {
-		fmt.Fprintf(&sb, "func g%d(m dsl.Matcher) {\n", g.Name)
+		fmt.Fprintf(&sb, "func g%d(m dsl.Matcher) {\n", f.gBase+g.Name)
 		for _, imp := range g.Imports {
 			fmt.Fprintf(&sb, "\tm.Import(%q)\n", imp)
 		}
@@ -452,49 +461,48 @@ func c20ErrClass(s string) string {
 
 var c20ReportRe = regexp.MustCompile(`^p(\d+)\(v(\d+)\)$`)
 
-func (f *c20File) exec(w *c20World) {
-	e := ruleguard.NewEngine()
+// filter: the GroupFilter of the file (nil when no group is rejected)
+func (f *c20File) filter() func(*ruleguard.GoRuleGroup) bool {
 	rej := map[string]bool{}
-	anyRej := false
 	for _, g := range f.Groups {
 		if g.Rejected {
-			rej[fmt.Sprintf("g%d", g.Name)] = true
-			anyRej = true
+			rej[fmt.Sprintf("g%d", f.gBase+g.Name)] = true
 		}
 	}
-	var filter func(*ruleguard.GoRuleGroup) bool
-	if anyRej {
-		filter = func(g *ruleguard.GoRuleGroup) bool { return !rej[g.Name] }
+	if len(rej) == 0 {
+		return nil
 	}
-	if err := hx.LoadInto(e, "rules.go", f.src, filter); err != nil {
-		f.errTxt = err.Error()
-		f.out = c20ErrClass(f.errTxt)
-		return
-	}
-	reports, pk, _, err := hx.Run(e, w.target, hx.RunOpts{})
-	if err != nil || pk != "" {
-		f.out = fmt.Sprintf("run-failed:%v:%s", err, pk)
-		return
-	}
-	sets := make([][]int, c20NumRules)
+	return func(g *ruleguard.GoRuleGroup) bool { return !rej[g.Name] }
+}
+
+// c20Sets sorts the reports of a run into the set of reported values per rule number; a report that is
+// not `p<k>(v<i>)` with message R<k> is returned as an anomaly.
+func c20Sets(w *c20World, reports []hx.Report) (sets [][]int, anomaly string) {
+	sets = make([][]int, w.numRules)
 	for _, r := range reports {
 		m := c20ReportRe.FindStringSubmatch(string(w.target.Src[r.Pos:r.End]))
 		if m == nil || r.Message != "R"+m[1] {
-			f.out = "unexpected-report:" + strings.ReplaceAll(r.String(), " ", "_")
-			return
+			return nil, "unexpected-report:" + strings.ReplaceAll(r.String(), " ", "_")
 		}
 		k, _ := strconv.Atoi(m[1])
 		i, _ := strconv.Atoi(m[2])
 		sets[k] = append(sets[k], i)
 	}
+	for k := range sets {
+		sort.Ints(sets[k])
+	}
+	return sets, ""
+}
+
+// canon: the canonical observation of a loaded file from the per-rule sets of a run
+func (f *c20File) canon(sets [][]int) string {
 	var gs []string
-	k := 0
+	k := f.k0
 	for _, g := range f.Groups {
 		var rs []string
 		for range g.Rules {
 			s := "-"
 			if len(sets[k]) > 0 {
-				sort.Ints(sets[k])
 				var parts []string
 				for _, i := range sets[k] {
 					parts = append(parts, strconv.Itoa(i))
@@ -519,7 +527,27 @@ func (f *c20File) exec(w *c20World) {
 			gs = append(gs, strings.Join(rs, ";"))
 		}
 	}
-	f.out = "ok " + strings.Join(gs, "|")
+	return "ok " + strings.Join(gs, "|")
+}
+
+func (f *c20File) exec(w *c20World) {
+	e := ruleguard.NewEngine()
+	if err := hx.LoadInto(e, "rules.go", f.src, f.filter()); err != nil {
+		f.errTxt = err.Error()
+		f.out = c20ErrClass(f.errTxt)
+		return
+	}
+	reports, pk, _, err := hx.Run(e, w.target, hx.RunOpts{})
+	if err != nil || pk != "" {
+		f.out = fmt.Sprintf("run-failed:%v:%s", err, pk)
+		return
+	}
+	sets, anomaly := c20Sets(w, reports)
+	if anomaly != "" {
+		f.out = anomaly
+		return
+	}
+	f.out = f.canon(sets)
 }
 
 func c20Workspace() (string, error) {
@@ -565,8 +593,11 @@ func runC20(c *Ctx) error {
 	res.Rule = fmt.Sprintf("%d generated rule files with 1-4 groups (Import() of colliding base names / stdlib names / unknown packages, "+
 		"groups rejected by the GroupFilter) using qualified names in Type.Is, Underlying().Is, Implements, HasMethod (pools of %d/%d/%d strings incl. FQNs, "+
 		"wrappers, unknown types and packages); per rule the set of reported target values out of %d (same-named types of 4 packages, 3 vendored copies, "+
-		"implementors); plus the vendor-stripping and FQN-split functions on an enumerated path grid; non-trivial = the file loads and some group has an Import(); "+
-		"distinct by file text", nFiles, len(c20TypeArgs), len(c20IfaceArgs), len(c20MethArgs), len(c20Values))
+		"implementors); plus the vendor-stripping and FQN-split functions on an enumerated path grid; plus histories of 2-8 such files loaded into ONE engine "+
+		"(a third of them rejected inside a group that has Import()s of shadowing packages): every file must be observed as the model / spec20 say for it alone and as on a fresh engine; "+
+		"plus dependency worlds app -> l1 -> ... -> l<d> (d = 1..4, type-checked in memory, some levels also imported directly, some present on disk as a DIFFERENT copy): custom filters "+
+		"GetType / GetInterface of the full path of every level, expected sets from go/types on the analysed program's own packages; "+
+		"non-trivial = the file loads and some group has an Import() / a file loads after a rejected file with Import()s / the level is an indirect dependency; distinct by file text", nFiles, len(c20TypeArgs), len(c20IfaceArgs), len(c20MethArgs), len(c20Values))
 	harnessDir, _ := os.Getwd()
 	dir, err := c20Workspace()
 	if dir != "" {
@@ -637,7 +668,13 @@ func runC20(c *Ctx) error {
 	if err := c20Spec(c, files, specOps, impl, inputs); err != nil {
 		return err
 	}
-	return c20PathGrid(c)
+	if err := c20PathGrid(c); err != nil {
+		return err
+	}
+	if err := c20Histories(c, w, dir); err != nil {
+		return err
+	}
+	return c20Deps(c, dir)
 }
 
 // c20PathGrid: vendor stripping through the real matcher and FQN split, on enumerated paths.
